@@ -92,3 +92,17 @@ m('51b-keys-swapped-in-reader', 'src/options.rs', "\t\tlet multitree = vals.get(
 m('53-predicate-without-separator', 'src/index.rs', "\t\tname.starts_with(&format!(\"index_{col:02}_\"))", "\t\tname.starts_with(&format!(\"index_{col:02}\"))", {'C17': ['4e predicate-is-prefix-of-name-format index::TableId']})
 m('53b-drop_files-other-column', 'src/column.rs', "\t\t\t\tif crate::index::TableId::is_file_name(column, file) ||", "\t\t\t\tif crate::index::TableId::is_file_name(column / 10, file) ||", {'C17': []})
 m('49b-reset-without-precheck', 'src/db.rs', "\t\tlet salt = Self::precheck_column_operation(options)?;\n\t\tSelf::remove_column_files(options, index)?;\n", "\t\tSelf::remove_column_files(options, index)?;\n\t\tlet salt = Self::precheck_column_operation(options)?;\n", {'C17': ['4i open-before-change db::Db::reset_column']})
+
+# ---- C11
+m('30-no-is_locked-deferral', 'src/db.rs', "\t\t\t\t\t\t\t\t\tif let Some(reader) = reader {\n\t\t\t\t\t\t\t\t\t\tif reader.is_locked() {\n\t\t\t\t\t\t\t\t\t\t\ttree_active = true;\n\t\t\t\t\t\t\t\t\t\t}\n\t\t\t\t\t\t\t\t\t}\n\t\t\t\t\t\t\t\t}\n\t\t\t\t\t\t\t\tif tree_active {\n\t\t\t\t\t\t\t\t\tdefer = true;",
+  "\t\t\t\t\t\t\t\t\tif let Some(_reader) = reader {\n\t\t\t\t\t\t\t\t\t\ttree_active = false;\n\t\t\t\t\t\t\t\t\t}\n\t\t\t\t\t\t\t\t}\n\t\t\t\t\t\t\t\tif tree_active {\n\t\t\t\t\t\t\t\t\tdefer = true;", {'C11': ['1b deferred-when-reader-locked']})
+m('31-clean-before-recopy-in-defer', 'src/db.rs', "\t\t\tlet mut bytes = 0;\n\n\t\t\tfor (c, indexed) in &commit.indexed {\n\t\t\t\tindexed.copy_to_overlay(\n\t\t\t\t\t&mut overlay[*c as usize],\n\t\t\t\t\trecord_id,\n\t\t\t\t\t&mut bytes,\n\t\t\t\t\t&self.options,\n\t\t\t\t)?;\n\t\t\t}\n\n\t\t\tfor (c, iterset) in &commit.btree_indexed {\n\t\t\t\titerset.copy_to_overlay(\n\t\t\t\t\t&mut overlay[*c as usize].btree_indexed,\n\t\t\t\t\trecord_id,\n\t\t\t\t\t&mut bytes,\n\t\t\t\t\t&self.options,\n\t\t\t\t)?;\n\t\t\t}\n\n\t\t\t{\n\t\t\t\t// Cleanup the commit overlay with old id.\n\t\t\t\tfor (c, key_values) in commit.indexed.iter() {\n\t\t\t\t\tkey_values.clean_overlay(&mut overlay[*c as usize], old_id);\n\t\t\t\t}",
+  "\t\t\tlet mut bytes = 0;\n\n\t\t\tfor (c, key_values) in commit.indexed.iter() {\n\t\t\t\tkey_values.clean_overlay(&mut overlay[*c as usize], old_id);\n\t\t\t}\n\t\t\tfor (c, indexed) in &commit.indexed {\n\t\t\t\tindexed.copy_to_overlay(\n\t\t\t\t\t&mut overlay[*c as usize],\n\t\t\t\t\trecord_id,\n\t\t\t\t\t&mut bytes,\n\t\t\t\t\t&self.options,\n\t\t\t\t)?;\n\t\t\t}\n\n\t\t\tfor (c, iterset) in &commit.btree_indexed {\n\t\t\t\titerset.copy_to_overlay(\n\t\t\t\t\t&mut overlay[*c as usize].btree_indexed,\n\t\t\t\t\trecord_id,\n\t\t\t\t\t&mut bytes,\n\t\t\t\t\t&self.options,\n\t\t\t\t)?;\n\t\t\t}\n\n\t\t\t{",
+  {'C11': ['retag-before-untag'], 'C01': ['retag-before-untag']})
+# ---- C09 / C10 / C07 / C20
+m('27-search-only-current-index', 'src/column.rs', "\t\tfor entry in &reindex.queue {\n\t\t\tif let ReindexEntry::Index(index) = entry {\n\t\t\t\tif let Some(r) = Self::search_index(key, index, tables, log)? {\n\t\t\t\t\treturn Ok(Some(r))\n\t\t\t\t}\n\t\t\t}\n\t\t}\n\t\tOk(None)", "\t\tlet _ = reindex;\n\t\tOk(None)", {'C09': ['1wa anchors']})
+m('28-drop-file-without-log-record', 'src/column.rs', "\t\t\t\t\t\tif source_index == source.id.total_chunks() {\n\t\t\t\t\t\t\tlog::info!(target: \"parity-db\", \"Completed reindex {} into {}\", source.id, tables.index.id);\n\t\t\t\t\t\t\tdrop_index = Some(source.id);\n\t\t\t\t\t\t}",
+  "\t\t\t\t\t\tif source_index + 1 >= source.id.total_chunks() {\n\t\t\t\t\t\t\tlog::info!(target: \"parity-db\", \"Completed reindex {} into {}\", source.id, tables.index.id);\n\t\t\t\t\t\t\tdrop_index = Some(source.id);\n\t\t\t\t\t\t}", {'C09': ['2o drop_index-only-when-source-exhausted']})
+m('29-dec-ref-before-reading-children', 'src/db.rs', "\t\t\tlet node = guard.get_node_children(*address)?;\n\t\t\tlet (remains, _outcome) = column.write_address_dec_ref_plan(*address, writer)?;", "\t\t\tlet (remains, _outcome) = column.write_address_dec_ref_plan(*address, writer)?;\n\t\t\tlet node = guard.get_node_children(*address)?;", {'C10': ['4a children-read-before-node-can-be-freed']})
+m('25-mirror-counted-dereference', 'src/db.rs', "\t\t\t\t\t// Don't add removed ref-counted values to overlay.\n\t\t\t\t\tif !ref_counted {\n\t\t\t\t\t\toverlay.indexed.insert(*k, (record_id, None));\n\t\t\t\t\t}", "\t\t\t\t\t{\n\t\t\t\t\t\toverlay.indexed.insert(*k, (record_id, None));\n\t\t\t\t\t}", {'C07': ['1b removal-mirrored-only-if-not-counted db::IndexedChangeSet']})
+m('40-clear_slot-no-dirty-header', 'src/table.rs', "\t\tself.last_removed.store(index, Ordering::Relaxed);\n\t\tself.dirty_header.store(true, Ordering::Relaxed);\n", "\t\tself.last_removed.store(index, Ordering::Relaxed);\n", {'C10': ['5c header-marked-dirty table::ValueTable::clear_slot']})
